@@ -3,6 +3,7 @@
 SPECIFICATION Spec
 CONSTANTS MaxSeg = 3
           MaxCrashes = 3
+          MaxDeny = {99, 1, 2}
           CaseCrashes = 2
 INVARIANTS C28_MetaImpliesAllFiles C28_MarkKeptUntilLast DoneMeansDone
 PROPERTIES Terminates AlgoStepsHold
